@@ -374,14 +374,22 @@ func (e *Exec) readOnlyOps(op Op) {
 	// directory variant
 	img := newDisk()
 	variant := "as-left"
+	// need: the prefix the directory is known to hold (what the store had
+	// exposed before it was closed; for a crash image the last round that had
+	// completed before the crash point - process-kill model, operations in order)
+	need := e.lb
 	switch op.N {
 	case 1, 2:
 		// K-model crash image at a random trace position
 		tr := e.fs.Trace
 		if len(tr) > 0 {
 			p := simrt.Choose(len(tr), "ro-crash-point")
+			need = -1
 			for i := 0; i < p; i++ {
 				img.apply(&tr[i])
+				if tr[i].Kind == "MARK" && tr[i].Mark == "round" {
+					need = tr[i].J
+				}
 			}
 			if tr[p].Kind == "WRITE" && tr[p].Len > 1 {
 				t := 1 + simrt.Choose(tr[p].Len-1, "ro-tear")
@@ -520,6 +528,18 @@ func (e *Exec) readOnlyOps(op Op) {
 				e.probe("ro-open-fault-fallback-possible")
 			} else if expect != nil && got.Canon() != expect.Canon() {
 				fail("ro-content", "serves other content than a read-write open of a copy: %s", expect.Diff(got, ""))
+			} else if rofs.FaultSeen == 0 && op.M != 4 && op.M != 5 {
+				// ... and, whatever a read-write open would do: exactly the
+				// persisted content, i.e. a prefix of the executed batches
+				// that is not older than what the directory is known to hold
+				J := e.hist.Match(got)
+				if len(J) == 0 {
+					fail("ro-content", "serves content that is no prefix of the executed batches: against the full reference: %s", e.hist.Last().Diff(got, ""))
+				}
+				if need >= 0 && Advance(need, J) < 0 {
+					fail("ro-content", "serves prefix %v of the executed batches although the directory holds the completed round of prefix %d (an older data file was served?)", J, need)
+				}
+				e.probe("ro-content-prefix-checked")
 			}
 			sub.hist = NewHistory()
 			sub.hist.ResetTo(got)
@@ -571,6 +591,9 @@ func (e *Exec) readOnlyOps(op Op) {
 		simrt.Quiesce(20000, 2)
 	} else if expect != nil {
 		e.probe("ro-open-fails-rw-opens")
+	} else if need > 0 && rofs.FaultSeen == 0 && op.M != 4 && op.M != 5 {
+		// neither opens, although a persistence round had completed in this directory
+		fail("ro-open-error", "the open fails (%v), and so does a read-write open of a copy, although the directory holds the completed round of prefix %d", err, need)
 	}
 	after, herr := hashDir(roDir)
 	if herr != nil {
